@@ -28,6 +28,41 @@ uint64_t drv_vss_encode(void *msg, unsigned addr_mode, unsigned datatype, uint32
     return (uint64_t)AVTP_VSS_FIXED_HEADER_LEN + Avtp_Vss_CalcVssPathLength(pdu);
 }
 
+typedef struct {
+    VssPath_t vp;
+    VssData_t vd;
+    VssDataUint8Array_t desc;
+    unsigned addr_mode, datatype;
+} InBlock;
+typedef char inblock_fits[(sizeof(InBlock) <= DRV_VSS_INBLOCK_SIZE) ? 1 : -1];
+
+void drv_vss_mkinput(void *inblock, unsigned addr_mode, unsigned datatype, uint32_t static_id, char *path, uint16_t path_len, uint64_t scalar_bits, void *arr,
+                     uint16_t arr_bytes) {
+    InBlock *in = (InBlock *)inblock;
+    memset(in, 0, sizeof *in);
+    in->addr_mode = addr_mode;
+    in->datatype = datatype;
+    if (addr_mode == VSS_STATIC_ID_MODE) in->vp.vss_static_id_path = static_id;
+    else { in->vp.vss_interop_path.path_length = path_len; in->vp.vss_interop_path.path = path; }
+    if (is_var(datatype)) {
+        in->desc.data_length = arr_bytes;
+        in->desc.data = (uint8_t *)arr;
+        in->vd.data_uint8_array = &in->desc;
+    } else {
+        memcpy(&in->vd, &scalar_bits, sizeof scalar_bits);
+    }
+}
+
+uint64_t drv_vss_encode_from(void *msg, void *inblock) {
+    Avtp_Vss_t *pdu = (Avtp_Vss_t *)msg;
+    InBlock *in = (InBlock *)inblock;
+    Avtp_Vss_SetAddrMode(pdu, (Vss_AddrMode_t)in->addr_mode);
+    Avtp_Vss_SetDatatype(pdu, (Vss_Datatype_t)in->datatype);
+    Avtp_Vss_SetVssPath(pdu, &in->vp);
+    Avtp_Vss_SetVssData(pdu, &in->vd);
+    return (uint64_t)AVTP_VSS_FIXED_HEADER_LEN + Avtp_Vss_CalcVssPathLength(pdu);
+}
+
 uint64_t drv_vss_pad(void *msg, uint16_t len) {
     Avtp_Vss_Pad((Avtp_Vss_t *)msg, len);
     return ((uint64_t)Avtp_Vss_GetPad((Avtp_Vss_t *)msg) << 16) | Avtp_Vss_GetAcfMsgLength((Avtp_Vss_t *)msg);
